@@ -222,6 +222,11 @@ def run(ctx):
         ctx.inst("C19.R1", "main#empty-object-shortcut[%d]" % i, ok, "println!(\"{}\") of an empty outputs object is guarded by output_path.is_none(): %s" % ok, H.loc(n))
 
     # ---------------- R2 declaration order containers
+    # the portability check that decides between exit 0 and "[output error]" for a function-valued output is the capture analysis
+    ctx.rule("C19.R7", "validate_portable_value reports a function as unportable exactly when it reads a name it has not captured: the free-variable analysis it shares with closure creation visits every expression child and treats the names a do-block or an inner function binds as bound for exactly their scope (a local reported as unbound turns a successful run into exit 1; a missed name emits a different function)", floor=8)
+    from rules import c04 as c04_
+    c04_.free_variable_rule(ctx, "C19.R7", core)
+
     ctx.rule("C19.R2", "outputs are collected in an IndexMap (declaration order) all the way to serde_json::to_string", floor=3)
     hes = cli.hir_fn("blots::evaluate_source")
     ctx.inst("C19.R2", "evaluate_source#outputs-type", any(t.startswith("&mut indexmap::map::IndexMap<alloc::string::String, blots_core::values::SerializableValue") for t in hes["inputs"]), "parameter types %s" % hes["inputs"], H.loc(hes["body"]))
